@@ -546,7 +546,49 @@ func runDispatch(c *Ctx, r *Reporter) {
 	}
 	// == and != handled for all types in evalBinaryExpr
 	if fd := FindFunc(evalPkg, "(*Evaluator).evalBinaryExpr"); fd != nil {
-		got := opsCompared(fd)
+		// the operators evalBinaryExpr answers itself: the comparison's matching edge returns (a comparison that only
+		// feeds the short-circuit decision — an inlined canShortCircuit — goes on to the operand-kind dispatch)
+		got := map[string]bool{}
+		for _, fn := range regionFns(p.SSAFunc(fd.Obj), 2, anchoredOps) {
+			for _, b := range fn.Blocks {
+				for _, ins := range b.Instrs {
+					bo, ok := ins.(*ssa.BinOp)
+					if !ok || (bo.Op != token.EQL && bo.Op != token.NEQ) || bo.Referrers() == nil {
+						continue
+					}
+					sym := ""
+					for _, side := range []ssa.Value{bo.X, bo.Y} {
+						if k, ok := side.(*ssa.Const); ok && k.Value != nil && isNamed(k.Type(), pkg.PkgPath, "Operator") {
+							sym = symByVal[k.Value.ExactString()]
+						}
+					}
+					if sym == "" {
+						continue
+					}
+					answers := false
+					for _, ref := range *bo.Referrers() {
+						ifi, ok := ref.(*ssa.If)
+						if !ok {
+							answers = true // used as a value: not followed
+							continue
+						}
+						edge := 0
+						if bo.Op == token.NEQ {
+							edge = 1
+						}
+						t := ifi.Block().Succs[edge]
+						if len(t.Instrs) > 0 {
+							if _, isRet := t.Instrs[len(t.Instrs)-1].(*ssa.Return); isRet {
+								answers = true
+							}
+						}
+					}
+					if answers {
+						got[sym] = true
+					}
+				}
+			}
+		}
 		r.Check(sameSet(got, spec["all"]), fd.QName()+"#equality", p.Rel(fd.Decl.Pos()), "== and != are handled for all operand types", fmt.Sprintf("evalBinaryExpr handles {%s} generically, the specification says {%s}", setString(got), setString(spec["all"])))
 	} else {
 		r.Undecided("evalBinaryExpr not found")
@@ -887,107 +929,136 @@ func runEvalOrder(c *Ctx, r *Reporter) {
 	} else {
 		r.Undecided("evalExprList not found")
 	}
-	// short circuit
+	// short circuit: the evaluation of the right operand is guarded by a boolean that is ¬left for `and`, left for `or`
+	// and false for everything else — computed by a helper (canShortCircuit) or in place
 	bin := FindFunc(pkg, "(*Evaluator).evalBinaryExpr")
-	csc := FindFunc(pkg, "canShortCircuit")
-	if bin == nil || csc == nil {
-		r.Undecided("evalBinaryExpr/canShortCircuit not found")
+	if bin == nil {
+		r.Undecided("evalBinaryExpr not found")
 		return
 	}
-	binSSA, cscSSA := p.SSAFunc(bin.Obj), p.SSAFunc(csc.Obj)
-	// the operand evaluation may live in a helper of evalBinaryExpr: analyse the function that calls canShortCircuit
+	binSSA := p.SSAFunc(bin.Obj)
+	var rightEval *ssa.Call
 	for _, h := range regionFns(binSSA, 2, dispatcherNames) {
-		if len(callsTo(h, cscSSA)) > 0 {
-			binSSA = h
-			break
+		for _, b := range h.Blocks {
+			for _, ins := range b.Instrs {
+				if call, ok := ins.(*ssa.Call); ok && call.Call.StaticCallee() == ei.eval && len(call.Call.Args) > 1 && nodeFieldOf(call.Call.Args[1], 0) == "Right" && rightEval == nil {
+					rightEval = call
+				}
+			}
 		}
 	}
-	var cscCall *ssa.Call
-	var rightEval *ssa.Call
-	for _, b := range binSSA.Blocks {
-		for _, ins := range b.Instrs {
-			call, ok := ins.(*ssa.Call)
+	type scAlt struct {
+		val   ssa.Value
+		facts []condFact
+	}
+	var alts []scAlt
+	holderName := bin.QName()
+	holderPos := p.Rel(bin.Decl.Pos())
+	okSC := false
+	if rightEval != nil {
+		// the nearest test above the evaluation whose false edge leads to it and which is not an error test
+		for d := rightEval.Block(); d != nil && !okSC; d = d.Idom() {
+			id := d.Idom()
+			if id == nil || len(id.Instrs) == 0 {
+				continue
+			}
+			ifi, ok := id.Instrs[len(id.Instrs)-1].(*ssa.If)
 			if !ok {
 				continue
 			}
-			if call.Call.StaticCallee() == cscSSA {
-				cscCall = call
-			}
-			if call.Call.StaticCallee() == ei.eval && nodeFieldOf(call.Call.Args[1], 0) == "Right" {
-				rightEval = call
-			}
-		}
-	}
-	okSC := false
-	if cscCall != nil && rightEval != nil {
-		blk := cscCall.Block()
-		if ifi, ok := blk.Instrs[len(blk.Instrs)-1].(*ssa.If); ok {
-			cond := ifi.Cond
-			edge := 1
+			cond, edge := ifi.Cond, 1
 			if u, ok := cond.(*ssa.UnOp); ok && u.Op == token.NOT {
-				cond = u.X
-				edge = 0
+				cond, edge = u.X, 0
 			}
-			if cond == ssa.Value(cscCall) {
-				okSC = edgeDominates(blk, edge, rightEval.Block())
+			if !edgeDominates(id, edge, rightEval.Block()) {
+				continue
 			}
-		}
-		// arguments: the operator and the evaluated left operand
-		if okSC {
-			okSC = len(cscCall.Call.Args) == 2 && loadsField(cscCall.Call.Args[0], "Op")
+			var flatten func(v ssa.Value, facts []condFact, depth int)
+			flatten = func(v ssa.Value, facts []condFact, depth int) {
+				if phi, ok := v.(*ssa.Phi); ok && depth < 4 {
+					for k, e := range phi.Edges {
+						if k < len(phi.Block().Preds) {
+							flatten(e, impliedConds(phi.Block().Preds[k]), depth+1)
+						}
+					}
+					return
+				}
+				alts = append(alts, scAlt{v, facts})
+			}
+			switch x := cond.(type) {
+			case *ssa.Call:
+				h := x.Call.StaticCallee()
+				if h == nil || h.Pkg != binSSA.Pkg || len(h.Blocks) == 0 || len(x.Call.Args) != 2 {
+					continue
+				}
+				// arguments: the operator and the evaluated left operand
+				if !loadsField(x.Call.Args[0], "Op") {
+					if _, isPrm := x.Call.Args[0].(*ssa.Parameter); !isPrm {
+						continue
+					}
+				}
+				for _, ret := range returnsOf(h) {
+					flatten(ret.Results[0], impliedConds(ret.Block()), 0)
+				}
+				holderName = ssaQName(h)
+				holderPos = p.Rel(h.Pos())
+				okSC = true
+			case *ssa.Phi:
+				flatten(x, nil, 0)
+				okSC = true
+			}
 		}
 	}
-	r.Check(okSC, bin.QName()+"#short-circuit", p.Rel(bin.Decl.Pos()), "the right operand is evaluated only when canShortCircuit(op, left) is false", "evalBinaryExpr must evaluate expr.Right only on the edge where canShortCircuit(expr.Op, left) is false")
-	// canShortCircuit table
+	r.Check(okSC, bin.QName()+"#short-circuit", p.Rel(bin.Decl.Pos()), "the right operand is evaluated only on the edge where the short-circuit decision is false", "evalBinaryExpr must evaluate expr.Right only on the edge where the short-circuit decision (canShortCircuit(expr.Op, left)) is false")
 	want := map[string]string{"OP_AND": "not", "OP_OR": "id"}
 	got := map[string]string{}
-	for _, b := range cscSSA.Blocks {
-		if len(b.Instrs) == 0 {
-			continue
-		}
-		ifi, ok := b.Instrs[len(b.Instrs)-1].(*ssa.If)
-		if !ok {
-			continue
-		}
-		bo, ok := ifi.Cond.(*ssa.BinOp)
-		if !ok || bo.Op != token.EQL {
-			continue
-		}
-		k, ok := bo.Y.(*ssa.Const)
-		if _, isParam := bo.X.(*ssa.Parameter); !ok || !isParam || k.Value == nil {
-			continue
-		}
-		name := ""
-		for _, cn := range constsOfType(p.Pkg("pkg/parser").Types, "Operator") {
-			if constant.Compare(cn.Val(), token.EQL, k.Value) {
-				name = cn.Name()
-			}
-		}
-		t := b.Succs[0]
-		if len(t.Instrs) == 0 {
-			continue
-		}
-		ret, ok := t.Instrs[len(t.Instrs)-1].(*ssa.Return)
-		if !ok || len(ret.Results) != 1 {
-			got[name] = "?"
-			continue
-		}
-		switch v := ret.Results[0].(type) {
+	okFalse := true
+	for _, a := range alts {
+		kind := "?"
+		switch v := a.val.(type) {
 		case *ssa.UnOp:
-			if v.Op == token.NOT {
-				if loadsField(v.X, "V") {
-					got[name] = "not"
-				}
+			if v.Op == token.NOT && loadsField(v.X, "V") {
+				kind = "not"
 			} else if loadsField(v, "V") {
-				got[name] = "id"
+				kind = "id"
 			}
 		case *ssa.Const:
-			got[name] = "const"
+			if v.Value != nil && v.Value.ExactString() == "false" {
+				kind = "false"
+			} else {
+				kind = "const"
+			}
+		}
+		op := ""
+		for _, f := range a.facts {
+			bo, ok := f.Cond.(*ssa.BinOp)
+			if !ok || bo.Op != token.EQL || !f.Truth {
+				continue
+			}
+			k, ok := bo.Y.(*ssa.Const)
+			if !ok || k.Value == nil || namedOf(k.Type()) == nil || namedOf(k.Type()).Obj().Name() != "Operator" {
+				continue
+			}
+			for _, cn := range constsOfType(p.Pkg("pkg/parser").Types, "Operator") {
+				if constant.Compare(cn.Val(), token.EQL, k.Value) {
+					op = cn.Name()
+				}
+			}
+		}
+		switch {
+		case op != "" && kind != "false":
+			if prev, dup := got[op]; dup && prev != kind {
+				got[op] = "?"
+			} else {
+				got[op] = kind
+			}
+		case op == "" && kind != "false":
+			okFalse = false
 		}
 	}
 	for _, op := range []string{"OP_AND", "OP_OR"} {
-		r.Check(got[op] == want[op], csc.QName()+"#"+op, p.Rel(csc.Decl.Pos()), map[string]string{"OP_AND": "`and` skips its right operand exactly when the left is false", "OP_OR": "`or` skips its right operand exactly when the left is true"}[op],
-			fmt.Sprintf("canShortCircuit must return %s for %s (found: %q)", map[string]string{"not": "!left.V", "id": "left.V"}[want[op]], op, got[op]))
+		r.Check(got[op] == want[op], holderName+"#"+op, holderPos, map[string]string{"OP_AND": "`and` skips its right operand exactly when the left is false", "OP_OR": "`or` skips its right operand exactly when the left is true"}[op],
+			fmt.Sprintf("the short-circuit decision must be %s for %s (found: %q)", map[string]string{"not": "!left.V", "id": "left.V"}[want[op]], op, got[op]))
 	}
 	extraOps := []string{}
 	for op := range got {
@@ -996,22 +1067,8 @@ func runEvalOrder(c *Ctx, r *Reporter) {
 		}
 	}
 	sort.Strings(extraOps)
-	r.Check(len(extraOps) == 0, csc.QName()+"#others", p.Rel(csc.Decl.Pos()), "no other operator short-circuits", fmt.Sprintf("canShortCircuit has cases for %v: only and/or may skip their right operand", extraOps))
-	// all remaining returns are the constant false
-	okFalse := true
-	for _, ret := range returnsOf(cscSSA) {
-		switch v := ret.Results[0].(type) {
-		case *ssa.Const:
-			if v.Value == nil || v.Value.ExactString() != "false" {
-				okFalse = false
-			}
-		case *ssa.UnOp:
-			// the two table entries
-		default:
-			okFalse = false
-		}
-	}
-	r.Check(okFalse, csc.QName()+"#default", p.Rel(csc.Decl.Pos()), "every other path answers false (evaluate the right operand)", "canShortCircuit has a return that is neither a table entry nor the constant false")
+	r.Check(len(extraOps) == 0, holderName+"#others", holderPos, "no other operator short-circuits", fmt.Sprintf("the short-circuit decision has cases for %v: only and/or may skip their right operand", extraOps))
+	r.Check(okFalse && len(alts) > 0, holderName+"#default", holderPos, "every other path answers false (evaluate the right operand)", "the short-circuit decision can be true on a path that is neither the `and` nor the `or` entry")
 	// conditional block: Block evaluated on the true edge of the condition's bool
 	if fd := FindFunc(pkg, "(*Evaluator).evalConditionalBlock"); fd != nil {
 		sf := p.SSAFunc(fd.Obj)
